@@ -104,8 +104,10 @@ func (r *EVMRef) syncOut(w *World) {
 				} else if a.Nonce != 0 {
 					// known finding F10b: the native ledger keeps the nonce (and code marker) of a
 					// self-destructed contract. The address is retired: never addressed again, nonce not compared.
+					if !w.Dead[k] {
+						w.Excluded["F10b:selfdestructed_contract_retired"]++
+					}
 					w.Dead[k] = true
-					w.Excluded["F10b:selfdestructed_contract_retired"]++
 				}
 			}
 			continue
